@@ -828,6 +828,9 @@ class ContextStateTransaction(_TransactionBase):
                     self._mdib.context_states.set_version(tmp)
             elif adjust_version_counter:
                 tmp.StateVersion = old_state.StateVersion + 1
+            if adjust_version_counter:
+                # the entity can be older than the last change of its descriptor: refer to the version that is in the mdib
+                tmp.DescriptorVersion = self._mdib.descriptions.handle.get_one(tmp.DescriptorHandle).DescriptorVersion
 
             self._state_updates[state_container.Handle] = TransactionItem(old=old_state, new=tmp)
 
